@@ -36,6 +36,7 @@ static SCHED_LEN: AtomicUsize = AtomicUsize::new(0);
 /// pos << 2 | busy   (busy 0 free, 1 a thread runs until its next arrival, 2 a thread is exiting)
 static STATE: AtomicUsize = AtomicUsize::new(0);
 static HOLDER: AtomicU32 = AtomicU32::new(u32::MAX);
+const H_ACTOR: u32 = 0xFFFF_FFFE;
 static EXIT_ORD: AtomicU32 = AtomicU32::new(0);
 static SETTLE_TID: AtomicU32 = AtomicU32::new(0);
 static PREV_KIND: AtomicU32 = AtomicU32::new(0);
@@ -191,7 +192,8 @@ pub fn gate(id: u32, block: usize) {
             None => fail("gate-with-unknown-block", 0xff, id),
         }
     };
-    let me = (ord as u32) << 1 | u32::from(is_t);
+    // the handle owner is one actor (the main thread) whatever block it works on
+    let me = if is_t { (ord as u32) << 1 | 1 } else { H_ACTOR };
     if MODE.load(SeqCst) == 1 {
         arrive(me);
         wait_turn(ord as u32, id, me, tid);
@@ -312,7 +314,7 @@ pub fn finish() -> usize {
     if MODE.load(SeqCst) == 1 {
         // main's last step ends here
         let st = STATE.load(SeqCst);
-        if st & 3 == 1 && HOLDER.load(SeqCst) & 1 == 0 {
+        if st & 3 == 1 && HOLDER.load(SeqCst) == H_ACTOR {
             HOLDER.store(u32::MAX, SeqCst);
             STATE.store(st & !3, SeqCst);
             bump();
